@@ -36,7 +36,7 @@ pub fn fld(name: &str, lo: u32, w: u32, ty: FieldTy, access: Access) -> Field {
 }
 
 pub fn lay(bits: u32, fields: Vec<Field>) -> Layout {
-    Layout { name: "S".into(), base_bits: bits, default: None, default_colon: false, debug: false, fields, enums: vec![], inners: vec![], debug_first: false }
+    Layout { name: "S".into(), base_bits: bits, default: None, default_colon: false, debug: false, fields, enums: vec![], inners: vec![], debug_first: false, vis: 0 }
 }
 
 pub fn uty(w: u32) -> FieldTy {
